@@ -206,7 +206,8 @@ type c19Console struct {
 	dev      Device
 	elemSize int    // 1 (fb bytes) or 2 (vga cells)
 	h, pitch int    // rows and elements per row
-	raw      []byte // the real buffer bytes incl. guards: mem[fbOff-guard : fbOff+size+guard]
+	size     int    // height*pitch in bytes
+	raw      []byte // the real buffer bytes incl. guards: mem[fbOff-guard : fbOff+size+tail]
 	prev     []byte // copy of raw after the previous event
 }
 
@@ -232,7 +233,7 @@ func (m *c19Machine) setup(c *c19Case, first int, out *c19Out) *c19Console {
 	portWriteByteFn = func(uint16, uint8) {}
 	rc := &c19Console{}
 	var fnt *font.Font
-	var size int
+	var size, fblen int
 	if c.Cons == "vga" {
 		cons := NewVgaTextConsole(c.W, c.H, 0xb8000)
 		if err := cons.DriverInit(io.Discard); err != nil {
@@ -240,6 +241,7 @@ func (m *c19Machine) setup(c *c19Case, first int, out *c19Out) *c19Console {
 		}
 		rc.dev, rc.elemSize, rc.h, rc.pitch = cons, 2, int(c.H), int(c.W)
 		size = int(c.W*c.H) * 2
+		fblen = len(cons.fb)
 	} else {
 		ci := &multiboot.FramebufferRGBColorInfo{RedPosition: c.Ci[0], RedMaskSize: c.Ci[1], GreenPosition: c.Ci[2],
 			GreenMaskSize: c.Ci[3], BluePosition: c.Ci[4], BlueMaskSize: c.Ci[5]}
@@ -272,11 +274,18 @@ func (m *c19Machine) setup(c *c19Case, first int, out *c19Out) *c19Console {
 		cons.SetFont(fnt)
 		rc.dev, rc.elemSize, rc.h, rc.pitch = cons, 1, int(c.H), int(c.Pitch)
 		size = int(c.H * c.Pitch)
+		fblen = len(cons.fb)
 	}
-	if int(mapped) != size || size+c19Guard > (c19MemPages-1)*c19PageSize {
-		panic(fmt.Sprintf("framebuffer size: mapped %d, expected %d", mapped, size))
+	// The framebuffer proper is height*pitch elements.  Whatever the driver asked the mapper for and whatever length it
+	// gave its slice is not assumed but observed: the memory behind height*pitch is watched up to one page past the next
+	// page boundary (a slice that was rounded up to whole pages still lies inside the arena, so that a stray access shows
+	// up as a changed guard byte rather than as a fault), and the mapped size and the slice length are logged.
+	tail := (c19PageSize-size%c19PageSize)%c19PageSize + c19PageSize
+	if size+tail > (c19MemPages-2)*c19PageSize {
+		panic(fmt.Sprintf("harness arena too small for a framebuffer of %d bytes", size))
 	}
-	rc.raw = m.mem[m.fbOff-c19Guard : m.fbOff+size+c19Guard]
+	rc.size = size
+	rc.raw = m.mem[m.fbOff-c19Guard : m.fbOff+size+tail]
 	rng.Read(rc.raw) // random content everywhere: guards, logo rows, text area, padding
 	rc.prev = append([]byte{}, rc.raw...)
 
@@ -294,6 +303,8 @@ func (m *c19Machine) setup(c *c19Case, first int, out *c19Out) *c19Console {
 	out.num("nrows", uint64(nrows))
 	out.num("dfg", uint64(dfg))
 	out.num("dbg", uint64(dbg))
+	out.num("mapped", uint64(mapped)/uint64(rc.elemSize)) // elements the driver asked the mapper for
+	out.num("fblen", uint64(fblen))                       // elements of the driver's view of the buffer
 	if c.Cons == "vga" {
 		cons := rc.dev.(*VgaTextConsole)
 		out.num("pitch", uint64(c.W))
@@ -401,12 +412,13 @@ func (rc *c19Console) diff(out *c19Out) {
 	}
 	out.b = append(out.b, `],`...)
 	g := 0
-	n := len(rc.raw)
-	for i := 0; i < c19Guard; i++ {
+	for i := 0; i < c19Guard; i++ { // before the buffer
 		if rc.raw[i] != rc.prev[i] {
 			g++
 		}
-		if rc.raw[n-1-i] != rc.prev[n-1-i] {
+	}
+	for i := c19Guard + rc.size; i < len(rc.raw); i++ { // behind height*pitch
+		if rc.raw[i] != rc.prev[i] {
 			g++
 		}
 	}
